@@ -106,7 +106,7 @@ def bodies_model(c):
     return [[rg.atom_model(b, c.prog) for b in body] for body in c.real_bodies]
 
 
-def coq_batch(ctx, tag, progs, cases):
+def coq_batch(ctx, tag, progs, cases, extra=()):
     """ONE sharded Coq evaluation (startup dominates): wf_full of every program, same_bodies of
     every case with a translated clause dump, evalR of every case.  Returns (defs, wf codes)."""
     defs = {"D%d" % i: ("decls", p.model) for i, p in enumerate(progs)}
@@ -125,6 +125,11 @@ def coq_batch(ctx, tag, progs, cases):
                 slots.append(("bod", c))
             exprs.append(([d], logic.ob("evalR %d %s %s" % (FUEL, d, a))))
             slots.append(("orc", c))
+        for x in extra:
+            # further expressions about program i: objects with .pidx, .expr (Coq, type N, over D<i>), result -> .code
+            if x.pidx == i:
+                exprs.append(([d], x.expr))
+                slots.append(("extra", x))
     codes, fl = logic.coq_codes(ctx.work, tag, defs, exprs, shard=max(40, len(exprs) // core.NCPU + 1), imports=IMPORTS)
     if fl:
         raise core.CheckFailure("coq evaluation (wf_full / same_bodies / evalR) failed: %s" % (fl[0],))
@@ -134,6 +139,8 @@ def coq_batch(ctx, tag, progs, cases):
             wf[x] = k
         elif kind == "bod":
             x.bodies_ok = (k == 1)
+        elif kind == "extra":
+            x.code = k
         else:
             x.oracle = {0: False, 1: True}.get(k)
     return defs, wf
@@ -193,7 +200,7 @@ def reach_size(ctx, defs, c):
     return 1000 if fl else codes[0]
 
 
-def main_pipeline(ctx, progs, cases, cpu=5):
+def main_pipeline(ctx, progs, cases, cpu=5, extra_exprs=()):
     """steps 1-3 of the module docstring on prepared programs / cases; returns (all cases, defs)"""
     import concurrent.futures
     import time
@@ -216,7 +223,7 @@ def main_pipeline(ctx, progs, cases, cpu=5):
     t1 = time.time()
     # -- model side (Coq) and the real solvers, side by side ---------------------------------
     with concurrent.futures.ThreadPoolExecutor(max_workers=2) as ex:
-        f1 = ex.submit(coq_batch, ctx, "all", progs, allc)
+        f1 = ex.submit(coq_batch, ctx, "all", progs, allc, extra_exprs)
         f2 = ex.submit(run_solvers, allc, cpu)
         defs, wf = f1.result()
         t2 = time.time()
